@@ -30,9 +30,10 @@ VARIABLES
     pst,      \* stack of process_tags invocations
     scanIdx,  \* last scanner index (-1: fresh)
     base,     \* 1 once the global scope exists (ensure_scope)
-    running   \* inside a transform
+    running,  \* inside a transform
+    lim       \* limits in force and what was observed about them (C17)
 
-tvars == <<l, open, depth, h, els, specs, pst, scanIdx, base, running>>
+tvars == <<l, open, depth, h, els, specs, pst, scanIdx, base, running, lim>>
 
 Ev == Rec[l]
 Is(k) == l <= Len(Rec) /\ Rec[l].e = k
@@ -168,12 +169,36 @@ TOther ==
     /\ Consume
     /\ UNCHANGED <<open, depth, h, els, specs, pst, scanIdx, base, running>>
 
-TNext == TBegin \/ TDepth \/ TScope \/ TEnter \/ TExit \/ TPass \/ TTag \/ TPassEnd
-         \/ TIter \/ TScanBegin \/ TScan \/ TProbe \/ TEnd \/ TOther
+(***************************************************************************)
+(* Limit discipline (C17), observed next to every step above:              *)
+(*   - a loop reports the limit that is configured at that moment, counts  *)
+(*     at most one pass beyond it, and the transform then fails with a     *)
+(*     loop-limit error - and only then;                                   *)
+(*   - the depth counter never exceeds the depth limit, and a depth-limit  *)
+(*     error is only reported by a transform whose counter reached it.     *)
+(***************************************************************************)
+HasErr(k) == \E i \in 1..Len(Ev.errs) : Ev.errs[i] = k
+LimOK ==
+    /\ Is("iter") => Ev.limit = lim.ll /\ Ev.n <= Ev.limit + 1
+    /\ (Is("depth") /\ Ev.d = 1) => Ev.now <= lim.dl
+    /\ Is("end") => /\ HasErr("loop") <=> lim.over
+                    /\ HasErr("depth") => lim.atlim
+                    /\ lim.over => ~Ev.ok
+LimStep ==
+    lim' = IF Is("begin") THEN [dl |-> Ev.depth_limit, ll |-> Ev.loop_limit, over |-> FALSE, atlim |-> FALSE]
+           ELSE IF Is("config") THEN [lim EXCEPT !.dl = Ev.depth_limit, !.ll = Ev.loop_limit]
+           ELSE IF Is("iter") THEN [lim EXCEPT !.over = @ \/ Ev.n > Ev.limit]
+           ELSE IF Is("depth") THEN [lim EXCEPT !.atlim = @ \/ Ev.now >= lim.dl]
+           ELSE lim
+
+TNext == /\ TBegin \/ TDepth \/ TScope \/ TEnter \/ TExit \/ TPass \/ TTag \/ TPassEnd
+            \/ TIter \/ TScanBegin \/ TScan \/ TProbe \/ TEnd \/ TOther
+         /\ LimOK /\ LimStep
 
 TInit ==
     /\ l = 1 /\ open = <<>> /\ depth = 0 /\ h = 0 /\ els = 0 /\ specs = FALSE
     /\ pst = <<>> /\ scanIdx = -1 /\ base = 0 /\ running = FALSE
+    /\ lim = [dl |-> 0, ll |-> 0, over |-> FALSE, atlim |-> FALSE]
 
 TraceSpec == TInit /\ [][TNext]_tvars
 
